@@ -21,6 +21,8 @@ pub mod c19;
 pub mod numreplay;
 #[cfg(all(not(kani), feature = "compiler"))]
 pub mod planreplay;
+#[cfg(all(not(kani), feature = "compiler"))]
+pub mod tcreplay;
 
 /// All replayable harnesses (native build only).
 #[cfg(not(kani))]
